@@ -271,7 +271,11 @@ def processLine (st : St) (line : String) : IO St := do
               | .root => "lookup_root" | .up 0 => "lookup_down" | .up _ => "lookup_caret"
             st := { st with stats := st.stats.bump k |>.bump s!"lookup_segs_{min p.segs.length 7}"
                               |>.bump (if o = toString INV then "lookup_notfound" else "lookup_found") }
-            if d8Feature p then st := { st with stats := st.stats.bump "lookup_d8_count" }
+            if d8Feature p then st := { st with stats := st.stats.bump "lookup_multiname_count_65_90_95" }
+            if p.isSimple ∧ o ≠ toString INV ∧ o ≠ "panic" then
+              let sc := nat! (op.getD 1 "0")
+              if (abs t).parentOf (nat! o) ≠ some sc then
+                st := { st with stats := st.stats.bump "lookup_simple_found_in_enclosing_scope" }
           | none => st := { st with stats := st.stats.bump "lookup_outside_encoder_image"
                               |>.bump (if o = toString INV then "lookup_notfound" else "lookup_found") }
       else st := { st with stats := st.stats.bump "ops_out_of_contract" }
